@@ -283,4 +283,9 @@ example :
     ([97], .arr [.int false 9223372036854775807, .null, .str [120, 0, 121]])])) (by simp)
   exact ⟨r, h1, h2⟩
 
+
+/-- every source fact this property's model consumes was located in the current source by tools/extract (a fact that is not
+found is emitted with a placeholder value; this obligation then fails and the check uses the reference model) -/
+theorem source_facts_located_c09 : JsonC.Generated.factsFound_eq = true := by decide
+
 end JsonC.Equal
